@@ -43,6 +43,14 @@ def fixed_point(T, x):
     ok, why = deep_typed_eq(x, y.val)
     if not ok:
         return 'convert-changed-value', f"{short(y.val, 200)}: {why}"
+    if hasattr(T, '__pane_info__') and isinstance(T, type):
+        # the classmethod spelling of the same thing
+        z = observe(T.from_obj, x)
+        if z.kind != 'value':
+            return 'from_obj-raised', z.brief()
+        ok, why = deep_typed_eq(x, z.val)
+        if not ok:
+            return 'from_obj-changed-value', f"{short(z.val, 200)}: {why}"
     return None
 
 
@@ -277,3 +285,45 @@ def run(ctx):
                                                                                      'constructor': c.brief()}, mech='subclass-value-under-base-type-changed')
 
     drive.for_each_case(ctx, 'subclass-under-base', max(20, ctx.budget // 20), body_subclass_under_base, gen=lambda c, r: Ty('int'))
+
+    # a type only a custom handler knows (its converter reads the DATA form and refuses instances, as user converters usually do), held
+    # in Optional / Union / List fields: with the handlers passed, instances are fixed points through every spelling of convert
+    def body_custom_only_type(i, rng, ty_unused, T_unused):
+        class Point:
+            def __init__(self, x, y): self.x, self.y = x, y
+            def __eq__(self, o): return type(o) is Point and (o.x, o.y) == (self.x, self.y)
+            def __hash__(self): return hash((self.x, self.y))
+            def __repr__(self): return f"Point({self.x}, {self.y})"
+
+        class PointConv(env.Converter):
+            def expected(self, plural=False): return 'point'
+            def into_data(self, val): return [val.x, val.y]
+            def try_convert(self, val):
+                if isinstance(val, (list, tuple)) and len(val) == 2 and all(type(c) is int for c in val):
+                    return Point(*val)
+                raise env.ParseInterrupt()
+            def collect_errors(self, val):
+                try:
+                    self.try_convert(val)
+                    return None
+                except env.ParseInterrupt:
+                    return env.m_errors.WrongTypeError(self.expected(), val)
+        custom = {Point: PointConv()}
+        Holder = type(f"KCu{next(_serial)}", (env.PaneBase,), {'__annotations__': {'p': t.Optional[Point], 'ps': t.List[t.Union[Point, str]], 'n': int},
+                                                               'p': None, 'ps': env.pfield(default_factory=list), 'n': 0, '__module__': __name__})
+        x = Holder.from_data({'p': [1, 2], 'ps': [[3, 4], 's'], 'n': 5}, custom=custom)
+        for label, call in (('pane.convert(x, Cls, custom=)', lambda: env.convert(x, Holder, custom=custom)), ('Cls.from_obj(x, custom=)', lambda: Holder.from_obj(x, custom=custom)),
+                            ('from_data(x.into_data(custom=), Cls, custom=)', lambda: env.from_data(x.into_data(custom=custom), Holder, custom=custom)),
+                            ('from_data(into_data(x, Cls, custom=), ...)', lambda: env.from_data(env.into_data(x, Holder, custom=custom), Holder, custom=custom)),
+                            ('convert(x.p, Optional[Point], custom=)', lambda: Holder(p=env.convert(x.p, t.Optional[Point], custom=custom), ps=x.ps, n=5) if False else
+                             Holder.from_data({'p': env.into_data(env.convert(x.p, t.Optional[Point], custom=custom), t.Optional[Point], custom=custom),
+                                               'ps': [[3, 4], 's'], 'n': 5}, custom=custom))):
+            y = observe(call)
+            ctx.count('custom_only_type_fixed_points')
+            ctx.case(('custom-only-type', label[:20], y.kind), nontrivial=True)
+            if y.kind != 'value' or not (y.val == x):
+                ctx.violation('typed-value-is-fixed-point', 'custom-only-type', i, {'spelling': label, 'typed': short(x, 200), 'outcome': y.brief()},
+                              mech='custom-handlers-lost-on-the-way-out')
+                return
+
+    drive.for_each_case(ctx, 'custom-only-type', max(20, ctx.budget // 30), body_custom_only_type, gen=lambda c, r: Ty('int'))
